@@ -19,7 +19,7 @@ from fractions import Fraction as Fr
 
 import numpy as np
 
-SENTINEL = [999983, 1]  # a value that is never expected (not representable / not a number)
+SENTINEL = [7, 1]  # a value that is never expected (not representable / not a number)
 INT_MAX = 2 ** 31 - 1
 
 
@@ -110,7 +110,7 @@ def project_free(x, tol_abs, maxden=10 ** 6):
     return rat(r), bool(res <= tol_abs), res
 
 
-FLOOR = dict(bm=0.1, vol=1.0, gibbs=1.0, bulk=0.1, beta=1e-4, cp=1e-3, cpfit=10.0, gru=1e-4)
+FLOOR = dict(bm=0.1, vol=1.0, gibbs=1.0, bulk=0.1, beta=1e-4, cp=1e-3, cpfit=10.0, gru=1e-4, dsdv=0.1)
 
 
 def project_on(x, expected, tol_rel, floor=1e-12):
@@ -122,13 +122,24 @@ def project_on(x, expected, tol_rel, floor=1e-12):
         return SENTINEL, False, float("inf")
     if not np.isfinite(x):
         return SENTINEL, False, float("inf")
-    d = expected[1]
+    d = expected[1] if expected[1] > 0 else 10000
     n = round(x * d)
     if abs(n) >= INT_MAX:
         return SENTINEL, False, float("inf")
     r = Fr(n, d)
-    scale = max(abs(x), abs(float(unrat(expected))), floor)
+    scale = max(abs(x), abs(float(Fr(expected[0], d))), floor)
     res = abs(x - float(r)) / scale
+    if [r.numerator, r.denominator] != list(expected):
+        # a value the specification does not expect: keep it small so that TLC's 32-bit
+        # arithmetic cannot overflow on it (it stays different from the expected value)
+        r2 = Fr(x).limit_denominator(16)
+        if expected[1] > 0 and r2 == Fr(expected[0], expected[1]):
+            r2 += Fr(1, 13)
+        if abs(r2.numerator) > 40:
+            r2 = Fr(SENTINEL[0] if x > 0 else -SENTINEL[0], 1)
+            if expected[1] > 0 and r2 == Fr(expected[0], expected[1]):
+                r2 += 1
+        r = r2
     return rat(r), bool(res <= tol_rel), res
 
 
@@ -145,6 +156,7 @@ REQ_PH = U(-1, -1, 3)
 REQ_BULK = U(1, 0, 21)
 REQ_CP = U(1, 1, 0)
 REQ_GRU = U(1, 1, 0)
+REQ_DSDV = U(0, -1, 21)
 # what a wrong conversion could look like
 PH_UNIT_CANDIDATES = [REQ_PH, UONE, U(1, 1, -3), U(-1, -1, 0), U(-1, 0, 0), U(-1, 0, 3), U(-1, 0, -21), U(1, 0, 21)]
 PV_UNIT_CANDIDATES = [REQ_PV, UONE, U(1, 0, 21), U(-1, 0, 0), U(-1, -1, 3), U(1, 1, -3), U(-1, 0, -30), U(-1, 0, -20), U(-1, 0, -22)]
@@ -155,7 +167,7 @@ class Case:
     """One abstract input of Qha.tla plus its concrete realisation."""
 
     def __init__(self, cid, T, tmax, shape, P, eos, vpoly, epoly, bpoly, bppoly, qpars, cvtab, stab, vref,
-                 volumes, poly_set=True, perturb=None, mode="stub"):
+                 volumes, poly_set=True, perturb=None, mode="stub", ptab=None, family="main"):
         self.id = cid
         self.T = list(T)
         self.tmax = tmax  # None or int
@@ -163,23 +175,43 @@ class Case:
         self.P = P  # None or Fraction
         self.eos = eos
         self.mode = mode
+        self.family = family
         self.volumes = np.asarray(volumes, dtype=float)
         nT = len(T)
-        self.ptab = []
-        for k, t in enumerate(T):
-            p = dict(E0=poly_eval(epoly, Fr(t)), B0=poly_eval(bpoly, Fr(t)), Bp=poly_eval(bppoly, Fr(t)),
-                     V0=poly_eval(vpoly, Fr(t)))
-            if perturb is not None:
-                p["E0"] += perturb[k][0]
-                p["V0"] += perturb[k][1]
-            self.ptab.append(p)
+        if ptab is not None:
+            self.ptab = ptab
+            poly_set = False
+        else:
+            self.ptab = []
+            for k, t in enumerate(T):
+                p = dict(E0=poly_eval(epoly, Fr(t)), B0=poly_eval(bpoly, Fr(t)), Bp=poly_eval(bppoly, Fr(t)),
+                         V0=poly_eval(vpoly, Fr(t)))
+                if perturb is not None:
+                    p["E0"] += perturb[k][0]
+                    p["V0"] += perturb[k][1]
+                self.ptab.append(p)
         self.poly_set = poly_set and perturb is None
         self.vpoly, self.epoly = list(vpoly), list(epoly)
-        self.qtab = qpars if shape == "TV" else qpars[:1]
-        assert len(self.qtab) == (nT if shape == "TV" else 1)
+        self.qtab = qpars if shape == "TV" else qpars[:1]  # for "TV": as many rows as the caller supplies
         self.cvtab, self.stab, self.vref = cvtab, stab, vref
+        self.eldtype = "float"   # number type of the electronic energies handed to phonopy
+        self.voldtype = "float"  # number type of the volumes
+        self.wf = False          # also call the write_... methods
+        self.inject = {}         # (phase, call index) -> "typeerror" | "runtimeerror"
+        self.bmplan = None       # outcome of every fit call, filled in after the run
+        self.fitplan = None
+        self.skip = None         # reason why no claim is made on this case
+
+    @property
+    def elcurve(self):
+        return self.eldtype == "float"
+
+    @property
+    def nvd(self):
+        return int(len(np.unique(self.volumes)))
 
     def to_tla(self):
+        nT = len(self.T)
         return dict(
             id=self.id, T=self.T,
             tmax=dict(set=self.tmax is not None, v=0 if self.tmax is None else int(self.tmax)),
@@ -190,7 +222,9 @@ class Case:
             poly=dict(set=self.poly_set, v=[rat(c) for c in self.vpoly], e=[rat(c) for c in self.epoly]),
             cvtab=[[rat(c) for c in row] for row in self.cvtab],
             stab=[[rat(c) for c in row] for row in self.stab],
-            vref=self.vref)
+            vref=self.vref, nvd=self.nvd, eldtype=self.eldtype, voldtype=self.voldtype, elcurve=self.elcurve,
+            wf=bool(self.wf),
+            fitplan=list(self.fitplan or ["ok"] * nT), bmplan=list(self.bmplan or ["ok"] * len(self.qtab)))
 
     # concrete arrays under the hypothesis of Qha.tla
     def realise(self, forms, EV, NA):
@@ -200,42 +234,104 @@ class Case:
         pv = (float(self.P) * V * upv) if self.P is not None else 0.0 * V
         self.qcurves = np.array([curve(forms, self.eos, q, V) for q in self.qtab])
         self.pcurves = np.array([curve(forms, self.eos, p, V) for p in self.ptab])
-        el = self.qcurves - pv  # El_j + P V u = Curve(q_j)
+        if self.eldtype == "int":
+            el = np.round(10 * self.qcurves)  # integer-valued, no EOS curve; the totals below still are
+        else:
+            el = self.qcurves - pv  # El_j + P V u = Curve(q_j)
+        nq = len(self.qtab)
+        e_idx = (lambda k: min(k, nq - 1)) if self.shape == "TV" else (lambda k: 0)
+        # Ph_k u + El_e(k) + P V u = Curve(p_k)
+        self.ph = np.array([(self.pcurves[k] - el[e_idx(k)] - pv) / uph for k in range(len(self.T))])
         self.el = el if self.shape == "TV" else el[0]
-        e_idx = (lambda k: k) if self.shape == "TV" else (lambda k: 0)
-        self.ph = np.array([(self.pcurves[k] - self.qcurves[e_idx(k)]) / uph for k in range(len(self.T))])
         w = V - self.vref
         self.cv = np.array([sum(float(c) * w ** i for i, c in enumerate(row)) for row in self.cvtab])
         self.entropy = np.array([sum(float(c) * w ** i for i, c in enumerate(row)) for row in self.stab])
 
+    def api_arrays(self):
+        vols = self.volumes.copy()
+        if self.voldtype == "int":
+            assert np.all(vols == np.round(vols))
+            vols = vols.astype(np.int64)
+        el = np.array(self.el, copy=True)
+        if self.eldtype == "int":
+            el = el.astype(np.int64)
+        return vols, el
+
 
 # ----------------------------------------------------------------------------- the fit wrapper
+class Injected(Exception):
+    pass
+
+
 class FitProbe:
     """Replaces phonopy.qha.core.fit_to_eos while one PhonopyQHA object is built.
 
     Records every (volumes, energies) row that reaches the fit together with the phase
-    ('bulkmodulus' before QHA.run starts, 'qha' inside it).  mode 'real': the original
-    scipy fit answers.  mode 'stub': the specification's uninterpreted Fit answers - if
-    the row is exactly one of the known curves its parameters are returned, otherwise
-    the original fit is used."""
+    ('bulkmodulus' before QHA.run starts, 'qha' inside it) and the OUTCOME of the call:
+    'ok' (returned, scipy status 1..4), 'nonconv' (scipy's leastsq ended with another
+    status), 'runtimeerror' / 'typeerror' (the fit raised), 'localmin' (status 1..4 on an
+    exact curve but other parameters: outside the hypothesis).  case.inject makes the
+    environment fail at chosen calls.  mode 'real': the original scipy fit answers.  mode
+    'stub': the specification's uninterpreted Fit answers - if the row is exactly one of
+    the known curves its parameters are returned, otherwise the original fit is used."""
 
     def __init__(self, case, orig, mode):
         self.case, self.orig, self.mode = case, orig, mode
         self.phase = "bulkmodulus"
-        self.calls = []
+        self.calls = []      # (phase, volumes, row, eos)
+        self.outcomes = []   # (phase, outcome)
+        self.starts = []     # start values seen by EOSFit.fit, per real qha-phase call
+        self.iers = []
+        self.last_result = None
+
+    def _match(self, row):
+        c = self.case
+        tabs = (c.qcurves, c.qtab) if self.phase == "bulkmodulus" else (c.pcurves, c.ptab)
+        if self.phase == "bulkmodulus" and not c.elcurve:
+            return None
+        if row.shape == tabs[0][0].shape:
+            err = np.abs(tabs[0] - row[None, :]).max(axis=1)
+            k = int(np.argmin(err))
+            if err[k] <= 1e-10 * max(1.0, np.abs(row).max()):
+                return tabs[1][k]
+        return None
 
     def __call__(self, volumes, fe, eos):
         row = np.array(fe, dtype=float)
+        idx = sum(1 for ph, *_ in self.calls if ph == self.phase)
         self.calls.append((self.phase, np.array(volumes, dtype=float), row, eos))
-        if self.mode == "stub":
-            c = self.case
-            tabs = (c.qcurves, c.qtab) if self.phase == "bulkmodulus" else (c.pcurves, c.ptab)
-            if row.shape == tabs[0][0].shape:
-                err = np.abs(tabs[0] - row[None, :]).max(axis=1)
-                k = int(np.argmin(err))
-                if err[k] <= 1e-10 * max(1.0, np.abs(row).max()):
-                    return np.array(par_float(tabs[1][k]))
-        return self.orig(volumes, fe, eos)
+        inj = self.case.inject.get((self.phase, idx))
+        if inj == "typeerror":
+            self.outcomes.append((self.phase, "typeerror"))
+            raise TypeError("injected by the harness: Improper input")
+        if inj == "runtimeerror":
+            self.outcomes.append((self.phase, "runtimeerror"))
+            raise RuntimeError("injected by the harness: Met difficulty in fitting to EOS.")
+        known = self._match(row)
+        if self.mode == "stub" and known is not None:
+            self.outcomes.append((self.phase, "ok"))
+            self.last_result = np.array(par_float(known))
+            return self.last_result.copy()
+        n0 = len(self.iers)
+        try:
+            res = self.orig(volumes, fe, eos)
+        except RuntimeError:
+            bad = len(self.iers) > n0 and self.iers[-1] not in (1, 2, 3, 4)
+            self.outcomes.append((self.phase, "nonconv" if bad else "runtimeerror"))
+            raise
+        except TypeError:
+            self.outcomes.append((self.phase, "typeerror"))
+            raise
+        out = "ok"
+        if len(self.iers) > n0 and self.iers[-1] not in (1, 2, 3, 4):
+            out = "nonconv"
+        elif known is not None and res is not None:
+            ref = np.array(par_float(known))
+            if np.abs(np.asarray(res, dtype=float) - ref).max() > 1e-5 * np.abs(ref).max():
+                out = "localmin"
+        self.outcomes.append((self.phase, out))
+        self.last_result = None if res is None else np.asarray(res, dtype=float)
+        return res
 
 
 def identify_linear(res, V, tol):
@@ -298,41 +394,134 @@ def identify_row(case, row, phase, expected, EV, NA):
 
 UNMATCHED_ROW = dict(ph=0, phunit=UONE, el=0, pvsign=0, pvunit=UONE)
 UNMATCHED_BM = dict(el=0, pvsign=0, pvunit=UONE)
+UNKNOWN_PAR = dict(E0=[0, 0], B0=[0, 0], Bp=[0, 0], V0=[0, 0])
+
+WRITERS = {  # attribute of FileSpecs -> (method of PhonopyQHA, keyword of the file name)
+    "vol": ("write_volume_temperature", "filename"),
+    "beta": ("write_thermal_expansion", "filename"),
+    "gibbs": ("write_gibbs_temperature", "filename"),
+    "bulk": ("write_bulk_modulus_temperature", "filename"),
+    "cp": ("write_heat_capacity_P_numerical", "filename"),
+    "gru": ("write_gruneisen_temperature", "filename"),
+}
+
+
+def write_files(q, tmpdir):
+    """Call the write_... methods; return attr -> list of text lines (or an exception name)."""
+    import os
+
+    out = {}
+    for attr, (meth, kw) in WRITERS.items():
+        path = os.path.join(tmpdir, attr + ".dat")
+        try:
+            getattr(q, meth)(**{kw: path})
+            with open(path) as f:
+                out[attr] = f.read().splitlines()
+        except Exception as e:
+            out[attr] = "error:" + type(e).__name__
+    try:
+        names = dict(filename=os.path.join(tmpdir, "cpfit.dat"), filename_ev=os.path.join(tmpdir, "ev.dat"),
+                     filename_cvv=os.path.join(tmpdir, "cvv.dat"), filename_dsdvt=os.path.join(tmpdir, "dsdv.dat"))
+        q.write_heat_capacity_P_polyfit(**names)
+        with open(names["filename"]) as f:
+            out["cpfitfile"] = f.read().splitlines()
+        with open(names["filename_dsdvt"]) as f:
+            out["dsdv"] = f.read().splitlines()
+    except Exception as e:
+        out["cpfitfile"] = out["dsdv"] = "error:" + type(e).__name__
+    return out
 
 
 def run_case(case, mode, EV, NA):
     """Build PhonopyQHA on the realised arrays; return the raw observation."""
+    import shutil
+    import tempfile
+
     import phonopy.qha.core as core
+    import phonopy.qha.eos as eosmod
+    import scipy.optimize as sopt
     from phonopy import PhonopyQHA
 
     orig_fit = core.fit_to_eos
     orig_run = core.QHA.run
+    orig_eosfit = eosmod.EOSFit.fit
+    orig_leastsq = sopt.leastsq
     probe = FitProbe(case, orig_fit, mode)
 
     def run_wrapped(self, *a, **kw):
         probe.phase = "qha"
         return orig_run(self, *a, **kw)
 
-    raw = dict(status="ok", err=None)
+    def eosfit_wrapped(self, initial_parameters):
+        if probe.phase == "qha":
+            probe.starts.append((list(map(float, initial_parameters)), np.array(self._energy, dtype=float),
+                                 np.array(self._volume, dtype=float),
+                                 None if probe.last_result is None else probe.last_result.copy()))
+        return orig_eosfit(self, initial_parameters)
+
+    def leastsq_wrapped(*a, **kw):
+        r = orig_leastsq(*a, **kw)
+        try:
+            probe.iers.append(int(r[-1]))
+        except Exception:
+            probe.iers.append(-1)
+        return r
+
+    raw = dict(status="ok", err=None, files=None)
     core.fit_to_eos = probe
     core.QHA.run = run_wrapped
+    eosmod.EOSFit.fit = eosfit_wrapped
+    sopt.leastsq = leastsq_wrapped
     try:
-        with contextlib.redirect_stdout(io.StringIO()):
-            q = PhonopyQHA(volumes=case.volumes.copy(), electronic_energies=np.array(case.el, copy=True),
+        vols, el = case.api_arrays()
+        with contextlib.redirect_stdout(io.StringIO()) as so:
+            q = PhonopyQHA(volumes=vols, electronic_energies=el,
                            temperatures=np.array(case.T, dtype=float), free_energy=case.ph.copy(),
                            cv=case.cv.copy(), entropy=case.entropy.copy(), eos=case.eos,
                            pressure=None if case.P is None else float(case.P),
                            t_max=None if case.tmax is None else float(case.tmax))
         raw["q"] = q
+        raw["stdout"] = so.getvalue()[:500]
+        if case.wf:
+            tmp = tempfile.mkdtemp(prefix="c20_")
+            try:
+                raw["files"] = write_files(q, tmp)
+            finally:
+                shutil.rmtree(tmp, ignore_errors=True)
     except AssertionError as e:
         raw["status"], raw["err"] = "AssertionError", repr(e)
-    except Exception as e:  # phonopy raised where the specification expects a result
-        raw["status"], raw["err"] = "error:" + type(e).__name__, repr(e)[:300]
+    except Exception as e:  # phonopy refuses the input / reports a failed fit
+        raw["status"], raw["err"] = "refused", (type(e).__name__ + ": " + str(e))[:300]
     finally:
         core.fit_to_eos = orig_fit
         core.QHA.run = orig_run
+        eosmod.EOSFit.fit = orig_eosfit
+        sopt.leastsq = orig_leastsq
     raw["calls"] = probe.calls
+    raw["outcomes"] = probe.outcomes
+    raw["starts"] = probe.starts
+    # the environment's choices, as observed
+    nq, nT = len(case.qtab), len(case.T)
+    bm = [o for ph, o in probe.outcomes if ph == "bulkmodulus"]
+    qh = [o for ph, o in probe.outcomes if ph == "qha"]
+    case.bmplan = (bm + ["ok"] * nq)[:nq]
+    case.fitplan = (qh + ["ok"] * nT)[:nT]
+    if "localmin" in bm + qh:
+        case.skip = "a fit converged (status 1..4) to other parameters than the exact curve's: outside the hypothesis"
     return raw
+
+
+def classify_starts(raw):
+    out = []
+    for init, energy, volume, prev in raw["starts"]:
+        own = [energy[len(energy) // 2], 1.0, 4.0, volume[len(volume) // 2]]
+        if np.allclose(init, own, rtol=0, atol=0):
+            out.append("own")
+        elif prev is not None and np.allclose(init, prev, rtol=1e-12, atol=0):
+            out.append("prev")
+        else:
+            out.append("other")
+    return out
 
 
 def _get(q, name):
@@ -342,7 +531,11 @@ def _get(q, name):
         return [], type(e).__name__
 
 
-def project_case(case, raw, exp, tol, EV, NA):
+def raw_rows(raw, phase):
+    return [row for ph, _, row, _ in raw["calls"] if ph == phase]
+
+
+def project_case(case, raw, exp, tol, filespecs, EV, NA):
     """Raw observation -> obs record of QhaTrace.tla (+ exact flag, residuals, replay mismatches).
 
     exp: the machine's Out for this input (printed by TLC): supplies the denominators of the
@@ -354,24 +547,24 @@ def project_case(case, raw, exp, tol, EV, NA):
     def note(field, r):
         resid[field] = max(resid.get(field, 0.0), r)
 
-    nT = len(case.T)
-    obs = dict(status=raw["status"] if raw["status"] in ("ok", "AssertionError") else "error",
-               len=0, nfit=0, bm=[], bmpar=[], rows=[], vol=[], gibbs=[], bulk=[], beta=[], cp=[], cpfit=[], gru=[])
+    obs = dict(status=raw["status"], len=0, nfit=0, bm=[], bmpar=[], rows=[], vol=[], gibbs=[], bulk=[], beta=[],
+               cp=[], cpfit=[], gru=[], files=[], starts=classify_starts(raw))
     # rows that reached the fit
     bmrows, qrows = [], []
     for phase, vols, row, eosf in raw["calls"]:
         if phase == "bulkmodulus":
             j = len(bmrows)
-            r = identify_row(case, row, phase, (0, j), EV, NA)
-            bmrows.append(r)
+            bmrows.append(identify_row(case, row, phase, (0, j), EV, NA))
         else:
             i = len(qrows)
-            r = identify_row(case, row, phase, (i, i if case.shape == "TV" else 0), EV, NA)
-            qrows.append(r)
+            qrows.append(identify_row(case, row, phase, (i, i if case.shape == "TV" else 0), EV, NA))
     obs["nfit"] = len(qrows)
+    obs["bm"] = [UNMATCHED_BM if r is None else r for r in bmrows]
     if raw["status"] != "ok":
-        obs["rows"] = []
-        return obs, exact, resid, mismatches, dict(bmrows=bmrows, qrows=qrows)
+        return obs, exact, resid, mismatches
+    for r in bmrows + qrows:
+        if r is None:
+            exact = False
     q = raw["q"]
     out = {}
     for nm, attr in (("vol", "volume_temperature"), ("gibbs", "gibbs_temperature"),
@@ -380,37 +573,32 @@ def project_case(case, raw, exp, tol, EV, NA):
                      ("gru", "gruneisen_temperature")):
         out[nm], err = _get(q, attr)
         if err and not (nm == "cpfit" and case.shape == "TV" and err == "NotImplementedError"):
-            obs["status"] = "error"
+            obs["status"] = "refused"
             mismatches.append(dict(field=nm, error=err))
     try:
         hv = np.asarray(q.helmholtz_volume, dtype=float)
     except Exception as e:
         hv = np.zeros((0, len(case.volumes)))
         mismatches.append(dict(field="helmholtz_volume", error=type(e).__name__))
-    # the public helmholtz_volume rows must be the rows the fit saw
     obs["len"] = len(out["vol"])
+    # the public helmholtz_volume rows, identified (they must be rows the fit saw)
+    seen = raw_rows(raw, "qha")
     rows = []
+    hint = 0
     for k in range(len(hv)):
-        r = qrows[k] if k < len(qrows) else None
-        if r is not None and not np.array_equal(np.asarray(raw_rows(raw, "qha")[k]), hv[k]):
+        r = None
+        for i in range(hint, len(seen)):
+            if seen[i].shape == hv[k].shape and np.array_equal(seen[i], hv[k]):
+                r, hint = qrows[i], i + 1
+                break
+        if r is None:
             r = identify_row(case, hv[k], "qha", (k, k if case.shape == "TV" else 0), EV, NA)
         if r is None:
             exact = False
             r = UNMATCHED_ROW
         rows.append(r)
     obs["rows"] = rows
-    # all rows given to the fit (not only the returned ones) must be identified
-    for r in qrows:
-        if r is None:
-            exact = False
     # BulkModulus object
-    obs["bm"] = []
-    for r in bmrows:
-        if r is None:
-            exact = False
-            obs["bm"].append(UNMATCHED_BM)
-        else:
-            obs["bm"].append(r)
     try:
         bp = [np.atleast_1d(np.asarray(x, dtype=float)) for x in q.get_bulk_modulus_parameters()]
         nb = len(bp[0])
@@ -419,9 +607,12 @@ def project_case(case, raw, exp, tol, EV, NA):
         mismatches.append(dict(field="bulk_modulus_parameters", error=type(e).__name__))
     for j in range(nb):
         ex = exp["bmpar"][j] if j < len(exp["bmpar"]) else None
+        if not case.elcurve or (ex is not None and ex["V0"][1] == 0):
+            obs["bmpar"].append(dict(UNKNOWN_PAR))  # electronic energies are no EOS curve: no claim
+            continue
         rec = {}
         for idx, key in enumerate(("E0", "B0", "Bp", "V0")):
-            e = ex[key] if ex is not None and ex[key][1] != 0 else [0, 10000]
+            e = ex[key] if ex is not None else [0, 10000]
             rr, ok, res = project_on(bp[idx][j], e, tol["bm"], FLOOR["bm"])
             rec[key] = rr
             exact &= ok
@@ -429,7 +620,8 @@ def project_case(case, raw, exp, tol, EV, NA):
         obs["bmpar"].append(rec)
     # tables, divided by the REQUIRED unit factors
     div = dict(vol=1.0, gibbs=1.0, bulk=unit_factor(REQ_BULK, EV, NA), beta=1.0,
-               cp=unit_factor(REQ_CP, EV, NA), cpfit=1.0, gru=unit_factor(REQ_GRU, EV, NA))
+               cp=unit_factor(REQ_CP, EV, NA), cpfit=1.0, cpfitfile=1.0, gru=unit_factor(REQ_GRU, EV, NA),
+               dsdv=unit_factor(REQ_DSDV, EV, NA))
     for nm in ("vol", "gibbs", "bulk", "beta", "cp", "cpfit", "gru"):
         seq = []
         for k, x in enumerate(out[nm]):
@@ -444,8 +636,39 @@ def project_case(case, raw, exp, tol, EV, NA):
         if len(out[nm]) != len(exp[nm]):
             mismatches.append(dict(field=nm, observed_len=len(out[nm]), expected_len=len(exp[nm])))
         obs[nm] = seq
-    return obs, exact, resid, mismatches, dict(bmrows=bmrows, qrows=qrows)
-
-
-def raw_rows(raw, phase):
-    return [row for ph, _, row, _ in raw["calls"] if ph == phase]
+    # files written by the write_... methods
+    if raw.get("files") is not None:
+        expfiles = {f["attr"]: f for f in (exp.get("files") or [])}
+        for spec in filespecs:
+            attr = spec["attr"]
+            lines = raw["files"].get(attr)
+            tkey = "cpfit" if attr == "cpfitfile" else attr
+            rec = dict(attr=attr, fmtok=True, trows=[])
+            if not isinstance(lines, list):
+                rec["fmtok"] = False
+                obs["files"].append(rec)
+                mismatches.append(dict(field="file:" + attr, error=str(lines)))
+                continue
+            fmt = "%%%d.%df %%%d.%df" % (spec["tw"], spec["tp"], spec["vw"], spec["vp"])
+            pub = out.get(tkey) if (attr != "dsdv" and not (attr == "cpfitfile" and case.shape == "TV")) else None
+            erows = (expfiles.get(attr) or {}).get("trows") or []
+            for k, line in enumerate(lines):
+                try:
+                    t, v = (float(z) for z in line.split())
+                except Exception:
+                    rec["fmtok"] = False
+                    continue
+                if pub is not None:
+                    tph = rows[k]["ph"] if k < len(rows) else 0
+                    tref = float(case.T[tph - 1]) if 1 <= tph <= len(case.T) else t
+                    if k >= len(pub) or line != fmt % (tref, pub[k]):
+                        rec["fmtok"] = False
+                ev_ = erows[k][1] if k < len(erows) else [0, 10000]
+                ftol = max(tol.get(tkey, 1e-6), 1e-9)
+                rr, ok, res = project_on(v / div[attr], list(ev_), ftol, FLOOR.get(tkey, 1e-3))
+                if not ok:
+                    exact = False
+                note("file:" + attr, res)
+                rec["trows"].append([rat(Fr(t).limit_denominator(1000)), rr])
+            obs["files"].append(rec)
+    return obs, exact, resid, mismatches
